@@ -23,23 +23,30 @@ def parsesToOne (q : Bytes) : Bool :=
 
 def isSeq (allowed : List Char) (ts : List Char) : Bool := ts.all (allowed.contains ·)
 
+/-- drop one trailing `E` -/
+def stripE (ts : List Char) : List Char :=
+  match ts.reverse with
+  | 'E' :: r => r.reverse
+  | _ => ts
+
 /-- `(T? D* C? G?)* E? Z` – a simple query cycle, or `I Z` -/
 def simpleShape (ts : List Char) : Bool :=
   match ts.reverse with
   | 'Z' :: rest =>
     let body := rest.reverse
-    body = ['I'] || isSeq ['T', 'D', 'C', 'G'] (match body.reverse with | 'E' :: r => r.reverse | _ => body)
+    body = ['I'] || isSeq ['T', 'D', 'C', 'G'] (stripE body)
   | _ => false
 
 /-- `D* C? G?` optionally ended by one `E` -/
 def executeShape (ts : List Char) : Bool :=
-  isSeq ['D', 'C', 'G'] (match ts.reverse with | 'E' :: r => r.reverse | _ => ts)
+  isSeq ['D', 'C', 'G'] (stripE ts)
 
 def rm (n : Bytes) (l : List Bytes) : List Bytes := l.filter (· ≠ n)
 
-/-- one message: `reply` is the implementation's reply group (type bytes), `evs` the number of
-    parser/statement callbacks attributed to the message. Returns an error text or the next state. -/
-def extStep (L : Nat) (st : ExtState) (it : Item) (reply : List Char) (evs : Nat) : Except String ExtState :=
+/-- one message: `reply` is the reply group (type bytes), `evs` the number of parser/statement
+    callbacks attributed to the message; `one q` says whether the ParseFn turns `q` into exactly
+    one statement. Returns an error text or the next state. -/
+def extStepG (one : Bytes → Bool) (L : Nat) (st : ExtState) (it : Item) (reply : List Char) (evs : Nat) : Except String ExtState :=
   if st.closed then (if reply = [] ∧ evs = 0 then .ok st else .error "activity-after-terminate") else
   match it with
   | .big t _ full =>
@@ -61,7 +68,7 @@ def extStep (L : Nat) (st : ExtState) (it : Item) (reply : List Char) (evs : Nat
       | some (name, r) => match cstr r with
         | none => .error "malformed-in-campaign"
         | some (q, _) =>
-          if parsesToOne q then (if reply = ['1'] then .ok { st with stmts := name :: rm name st.stmts } else .error "parse-reply")
+          if one q then (if reply = ['1'] then .ok { st with stmts := name :: rm name st.stmts } else .error "parse-reply")
           else (if reply = ['E'] then .ok { st with skipping := true } else .error "parse-error-reply")
     else if t = ch 'B' then
       match cstr body with
@@ -97,5 +104,9 @@ def extStep (L : Nat) (st : ExtState) (it : Item) (reply : List Char) (evs : Nat
           (if executeShape reply then .ok { st with skipping := reply.getLast? = some 'E' } else .error "execute-shape")
         else (if reply = ['E'] ∧ evs = 0 then .ok { st with skipping := true } else .error "execute-unknown-portal-reply")
     else (if reply = ['E', 'Z'] then .ok st else .error "unknown-type-reply")
+
+/-- the oracle instance: the scripted parser of the harness decides what parses to one statement -/
+def extStep (L : Nat) (st : ExtState) (it : Item) (reply : List Char) (evs : Nat) : Except String ExtState :=
+  extStepG parsesToOne L st it reply evs
 
 end Pw.Spec
